@@ -67,6 +67,12 @@ func c15MW(i int, beh string, tr *c15Trace, only string) mcp.Middleware {
 				return r, fmt.Errorf("mw-failafter-%d: %w", i, c15Sentinel(beh))
 			}
 			if beh == "modres" && err == nil {
+				if mm, ok := r.(map[string]interface{}); ok {
+					// a result that is a plain map (ping): this middleware marks it in place, as it may - the
+					// result of a request belongs to that request
+					mm[fmt.Sprintf("m%d", i)] = fmt.Sprintf("req-%v", req.ID)
+					return mm, nil
+				}
 				if ctr, ok := r.(*mcp.CallToolResult); ok && ctr != nil {
 					cp := *ctr
 					cp.Content = append(append([]mcp.Content{}, ctr.Content...), mcp.NewTextContent(fmt.Sprintf("m%d", i)))
@@ -342,6 +348,16 @@ func c15Eval(tier string, i int) CaseResult {
 			viol = append(viol, V(key("handler-runs"), "the method handler ran %d times, expected %d", ran, wantRuns))
 		}
 		viol = append(viol, c15Judge(key, f, kind, texts, cs.Method)...)
+		if cs.Method == "ping" && kind == "native" {
+			// a second request of the same kind: its result carries the marks of its own passage only
+			f2, err2 := rp.Call(`{"jsonrpc":"2.0","id":78,"method":"ping","params":{}}`, "78")
+			vsched.Quiesce()
+			if err2 != nil {
+				viol = append(viol, V(key("no-answer"), "second ping: %v", err2))
+			} else if strings.Contains(f2, "req-77") {
+				viol = append(viol, V(key("result-shared-between-requests"), "the result of request 78 carries what a middleware added to the result of request 77: %s", truncate(f2, 200)))
+			}
+		}
 		obs.Add("%s", kind)
 	})
 	o := finishOutcome(res, obs, viol, true)
